@@ -1,5 +1,7 @@
 import NixModel.Lemmas.C13Shape
+import NixModel.Lemmas.C13Ids
 import NixModel.Generated.FindShape
+import NixModel.Generated.IdLookup
 
 /-!
 # C13 — tree searches, parents and 'referring' lists reflect the stored structure
@@ -296,6 +298,67 @@ theorem source_referring_code (b : Block) (k : Nat) :
 
 end Code
 
+/-! ## ids as texts: entities whose ids the caller supplied, in any spelling
+
+`Generated/IdLookup.lean` is what `harness/extract/c13_idlookup.py` reads from `Container.__contains__`,
+`H5Group.get_by_id` / `__contains__`, `Section.create_new`, `Entity.id` / `__eq__`, `util.is_uuid`.  The theorems
+speak about *every* assignment `texts` of id texts to the entities: library-made ids and ids supplied with
+`create_section(…, oid=…)` in whatever spelling `uuid.UUID` reads. -/
+section IdTexts
+open Nix.Tree.Shape Nix.Tree.Ids Nix.Generated Nix.Py
+
+/-- **the look-up by id as extracted compares the text as given** — no spelling is changed on the way: the id that
+`create_section(oid=…)` stores is the text supplied (for a text `util.is_uuid` accepts; otherwise the library's own),
+and `text in container` holds iff a child's stored id is that very text (asked only when the text is an id) or a
+child has that name.  An edit that normalises the key (or the stored id) on one side only changes a generated
+constant and breaks this theorem. -/
+theorem id_lookup_code :
+    (∀ oid, storedId IdLookup.shape oid = if uuidAccepts oid then some oid else none) ∧
+    (∀ cs t, containsT IdLookup.shape cs t =
+      ((uuidAccepts t && cs.any (fun c => c.id == t)) || cs.any (fun c => c.name == t))) := by
+  have h1 : IdLookup.shape.idKey = .asGiven := by decide
+  have h2 : IdLookup.shape.stored = .asGiven := by decide
+  exact ⟨fun oid => by simp [storedId, h2, KeyNorm.apply], containsT_asGiven _ h1⟩
+
+/-- **`Section.parent`, every id comparison made on the stored id texts, is the containing section** (none at the
+top level) for every assignment of id texts that are pairwise different, are ids and are nobody's name - whatever
+their spelling - through every kind of handle -/
+theorem parent_ids_code (texts : Nat → String) (f : File) (h : WF f) (ok : IdsOK texts f.sections)
+    (useCache : Bool) :
+    (∀ x ∈ f.sections,
+      sectionParentT FindShape.sectionParent IdLookup.shape texts f x.key useCache = .ok none) ∧
+    (∀ p ∈ nodesL f.sections, ∀ x ∈ p.children,
+      sectionParentT FindShape.sectionParent IdLookup.shape texts f x.key useCache = .ok (some p.key)) := by
+  have e := fun k => sectionParentT_eq FindShape.sectionParent IdLookup.shape (by decide) ok k useCache
+  simp only [e]
+  exact parent_code f h useCache
+
+/-- **`Source.parent_source` on the stored id texts is the containing source** -/
+theorem parent_source_ids_code (texts : Nat → String) (f : File) (h : WF f) (b : Block) (hb : b ∈ f.blocks)
+    (ok : IdsOK texts b.sources) :
+    (∀ x ∈ b.sources, sourceParentT FindShape.sourceParent IdLookup.shape texts f x.key = .ok none) ∧
+    (∀ p ∈ nodesL b.sources, ∀ x ∈ p.children,
+      sourceParentT FindShape.sourceParent IdLookup.shape texts f x.key = .ok (some p.key)) := by
+  obtain ⟨r1, r2⟩ := parent_source_code f h b hb
+  constructor
+  · intro x hx
+    rw [sourceParentT_eq _ _ (by decide) h hb ok (mem_nodesL_roots hx)]
+    exact r1 x hx
+  · intro p hp x hx
+    rw [sourceParentT_eq _ _ (by decide) h hb ok (child_mem_nodesL hp hx)]
+    exact r2 p hp x hx
+
+/-- the comparison every `Section.referring_*` property makes (`x.metadata.id == self.id`), on the stored texts, is
+the comparison of the entities: a link to the section itself is recognised in any spelling of its id, a link to
+another section never is -/
+theorem referring_ids_match (texts : Nat → String) (f : File)
+    (inj : ∀ a ∈ keysL f.sections, ∀ b ∈ keysL f.sections, texts a = texts b → a = b)
+    (md : Option Nat) (hm : ∀ t, md = some t → t ∈ keysL f.sections) (k : Nat) (hk : k ∈ keysL f.sections) :
+    mdMatchT texts md k = mdMatch f .id md k := by
+  rw [mdMatchT_eq inj hm hk, mdMatch_key (by decide)]
+
+end IdTexts
+
 /-! ## non-vacuity: the states of the repaired defects are reachable and the answers are the owners -/
 
 /-- z, a at the top; z/a; z/a/a; a/a — names repeat across subtrees and levels -/
@@ -377,5 +440,45 @@ example : keysOf (Shape.findRelatedG Generated.FindShape.sectionParent Generated
   rw [(find_related_code exSections (reachable_wf exSections ⟨_, rfl⟩) false _).2 (.mk ⟨0, "z", "t", none, none⟩ [n2])
     (by rw [exSections_sections]; simp [nodesL, Node.nodes]) n2 (by simp [Node.children])]
   rfl
+
+/-! ids supplied by the caller: the sections of `exSections` (z, a; z/a; z/a/a; a/a) with ids in upper case, in
+braces, as urn, without hyphens and in mixed case - the parents computed on these texts are the containers -/
+private def exTexts : Nat → String
+  | 0 => "A0000000-0000-4000-8000-00000000000A"
+  | 1 => "{b1111111-1111-4111-8111-11111111111b}"
+  | 2 => "urn:uuid:c2222222-2222-4222-8222-22222222222c"
+  | 3 => "D33333333333433383333333333333D3"
+  | 4 => "{E4444444-4444-4444-8444-44444444444e}"
+  | _ => ""
+
+private theorem exTexts_ok : Ids.IdsOK exTexts exSections.sections := by
+  have hk : keysL exSections.sections = [0, 2, 3, 1, 4] := by rw [exSections_sections]; rfl
+  have hn : (nodesL exSections.sections).map Node.name = ["z", "a", "a", "a", "a"] := by
+    rw [exSections_sections]; rfl
+  refine ⟨?_, ?_, ?_⟩
+  · rw [hk]; decide +kernel
+  · rw [hk]; decide +kernel
+  · intro n hn' a ha
+    have : n.name ∈ ["z", "a", "a", "a", "a"] := hn ▸ List.mem_map.mpr ⟨n, hn', rfl⟩
+    rw [hk] at ha
+    revert a
+    revert this
+    generalize n.name = nm
+    revert nm
+    decide +kernel
+
+/-- z/a/a (id without hyphens, upper case) re-fetched: the parent is z/a -/
+example : Ids.sectionParentT Generated.FindShape.sectionParent Generated.IdLookup.shape exTexts exSections 3 false
+    = .ok (some 2) :=
+  (parent_ids_code exTexts exSections (reachable_wf exSections ⟨_, rfl⟩) exTexts_ok false).2 n2
+    (by rw [exSections_sections]; simp [nodesL, Node.nodes, n2]) n3 (by simp [n2, Node.children])
+/-- the look-up itself: the upper-case id is found among the children as it is stored, its lower-case spelling is not
+(another text: `id in container` never re-spells), a name is -/
+example : Ids.containsT Generated.IdLookup.shape [⟨exTexts 3, "a"⟩] (exTexts 3) = true := by
+  rw [id_lookup_code.2]; decide +kernel
+example : Ids.containsT Generated.IdLookup.shape [⟨exTexts 0, "a"⟩] "a0000000-0000-4000-8000-00000000000a" = false := by
+  rw [id_lookup_code.2]; decide +kernel
+example : Ids.canonText? (exTexts 1) = some "b1111111-1111-4111-8111-11111111111b" := by decide +kernel
+example : Ids.canonText? (exTexts 3) = some "d3333333-3333-4333-8333-3333333333d3" := by decide +kernel
 
 end Nix.C13
